@@ -210,9 +210,9 @@ func c19(c *Check) {
 		"PacketAcknowledgementKey": "acks/⟨s:$0⟩/⟨s:$1⟩/sequences/⟨d:$2⟩", "PacketAcknowledgementPath": "acks/⟨s:$0⟩/⟨s:$1⟩/sequences/⟨d:$2⟩",
 		"PacketReceiptKey": "receipts/⟨s:$0⟩/⟨s:$1⟩/sequences/⟨d:$2⟩", "PacketReceiptPath": "receipts/⟨s:$0⟩/⟨s:$1⟩/sequences/⟨d:$2⟩",
 		"NextSequenceSendKey": "nextSequenceSend/⟨s:$0⟩/⟨s:$1⟩", "NextSequenceSendPath": "nextSequenceSend/⟨s:$0⟩/⟨s:$1⟩",
-		"ConsensusStateKey": "consensusStates/⟨be8:iface:xibc/exported.Height.GetRevisionNumber($0)⟩⟨be8:iface:xibc/exported.Height.GetRevisionHeight($0)⟩",
-		"ClientStateKey":    "clientState",
-		"FullClientStateKey": "clients/⟨s:$0⟩/clientState",
+		"ConsensusStateKey":     "consensusStates/⟨be8:iface:xibc/exported.Height.GetRevisionNumber($0)⟩⟨be8:iface:xibc/exported.Height.GetRevisionHeight($0)⟩",
+		"ClientStateKey":        "clientState",
+		"FullClientStateKey":    "clients/⟨s:$0⟩/clientState",
 		"FullConsensusStateKey": "clients/⟨v:$0⟩/consensusStates/⟨be8:iface:xibc/exported.Height.GetRevisionNumber($1)⟩⟨be8:iface:xibc/exported.Height.GetRevisionHeight($1)⟩",
 	}
 	var ks []string
